@@ -1,12 +1,18 @@
-(* C18, unbounded part.
-   1. the executable closure `tc` (Warshall over memoised successor lists) computes the transitive closure;
-   2. acyclicity test, add_arrow / add_arrows / add_from_networkx: accepted exactly when the result is acyclic,
-      the state machine keeps well-formed acyclic graphs, a rejected call leaves the graph unchanged;
-   3. candidate enumeration and minimal sets;
-   4. the moralisation criterion at Prop level (DESIGN Appendix B.1), made axiom-free by taking the two case
-      splits as decidability hypotheses which the executable layer discharges;
-   5. refinement: valid_alg reflects "no descendant of x in Z and x, y disconnected in the moral ancestral graph
-      minus Z", valid_specb reflects valid_spec; hence alg_sound / alg_complete for every well-formed graph. *)
+(* C18, unbounded part (no axioms: Print Assumptions reports "closed under the global context").
+   1. the executable closure `tc` (Warshall over memoised successor lists) computes the transitive closure
+      (tc_spec; proof by structural induction on the list of allowed intermediate nodes -- no cardinality argument);
+   2. acyclicity test; add_arrow / add_arrows / add_from_networkx are accepted exactly when the result is acyclic,
+      add_arrow is rejected iff its endpoint already reaches its source, every program keeps a well-formed
+      acyclic graph containing exposure and outcome, a rejected call leaves the graph unchanged;
+   3. candidate enumeration (sound and complete for sub-lists) and minimal sets (minimal_are_smallest);
+   4. the moralisation criterion at Prop level (DESIGN Appendix B.1: chain invariant for soundness,
+      descend / climb redirects for completeness); its two classical case splits are decidability hypotheses
+      here, discharged in 5 from the executable closures;
+   5. refinement: valid_alg = true  <->  no descendant of x in Z and x, y disconnected in the moral graph of
+      the ancestral set minus Z (ancestors are taken in the ORIGINAL graph by the code and in the graph without
+      x's out-arrows by the criterion: lemma AG_AH shows the two sets coincide because x itself is a target);
+      valid_specb = true <-> valid_spec (closure over walk states = active walks);
+   6. alg_sound, alg_complete, adjustment_sets_exact (for every well-formed graph and for every program). *)
 From Coq Require Import List Arith Bool PeanoNat Lia Relations Relation_Operators Operators_Properties.
 Import ListNotations.
 From Zepid Require Import Model.Dag.
@@ -931,3 +937,102 @@ Proof.
   rewrite step1_spec. rewrite <- dconnb_spec. destruct (dconnb_core RH ns eH x y Zl); intuition congruence.
 Qed.
 End Refine.
+
+(* ================================================================== 6. the theorems *)
+(* soundness and completeness of the (repaired) algorithm, for every well-formed graph -- acyclic or not --,
+   every pair of nodes and every Z not containing the outcome; unbounded; no axioms *)
+Theorem alg_sound g x y Z : wf g -> In x (nodes g) -> In y (nodes g) -> ~ In y Z ->
+  valid_alg g x y Z = true -> valid_spec g x y Z.
+Proof. intros Hw Hx Hy Hz H. apply (proj1 (valid_alg_iff_spec g x y Z Hw Hx Hy Hz) H). Qed.
+
+Theorem alg_complete g x y Z : wf g -> In x (nodes g) -> In y (nodes g) -> ~ In y Z ->
+  valid_spec g x y Z -> valid_alg g x y Z = true.
+Proof. intros Hw Hx Hy Hz H. apply (proj2 (valid_alg_iff_spec g x y Z Hw Hx Hy Hz) H). Qed.
+
+Theorem specb_reflects_spec g x y Z : wf g ->
+  (valid_specb g x y Z = true <-> valid_spec g x y Z).
+Proof. intros Hw. apply valid_specb_reflect; auto. Qed.
+
+(* every graph a program can build is well formed, acyclic, and still contains exposure and outcome *)
+Lemma add_edge_raw_nodes g u v a : In a (nodes g) -> In a (nodes (add_edge_raw g u v)).
+Proof. intros H. simpl. rewrite !add_node_In. auto. Qed.
+
+Lemma add_edges_raw_nodes ps : forall g a, In a (nodes g) -> In a (nodes (add_edges_raw g ps)).
+Proof.
+  unfold add_edges_raw. induction ps as [|p ps IH]; intros g a H; simpl; auto.
+  apply IH. apply add_edge_raw_nodes; auto.
+Qed.
+
+Lemma apply_op_nodes x y g o g' : In x (nodes g) -> In y (nodes g) -> apply_op x y g o = Some g' ->
+  In x (nodes g') /\ In y (nodes g').
+Proof.
+  intros Hx Hy H. destruct o as [u v | ps | ns es]; simpl in H.
+  - unfold add_arrow in H. destruct (is_dag (add_edge_raw g u v)); inversion H; subst.
+    split; apply add_edge_raw_nodes; auto.
+  - unfold add_arrows in H. destruct (is_dag (add_edges_raw g ps)); inversion H; subst.
+    split; apply add_edges_raw_nodes; auto.
+  - unfold from_networkx in H.
+    destruct (is_dag (add_edges_raw (mkG ns []) es)); simpl in H; [|discriminate].
+    destruct (mem x (nodes (add_edges_raw (mkG ns []) es))) eqn:E1; simpl in H; [|discriminate].
+    destruct (mem y (nodes (add_edges_raw (mkG ns []) es))) eqn:E2; inversion H; subst.
+    split; apply mem_In; auto.
+Qed.
+
+Theorem run_prog_nodes x y p : In x (nodes (run_prog x y p)) /\ In y (nodes (run_prog x y p)).
+Proof.
+  unfold run_prog.
+  assert (H0 : In x (nodes (init_graph x y)) /\ In y (nodes (init_graph x y))).
+  { unfold init_graph. simpl. rewrite !add_node_In. simpl. tauto. }
+  revert H0. generalize (init_graph x y).
+  induction p as [|o p IH]; intros g [Hx Hy]; simpl; auto.
+  apply IH. unfold step_op. destruct (apply_op x y g o) eqn:E; auto. eapply apply_op_nodes; eauto.
+Qed.
+
+(* the property: calculate_adjustment_sets (model) lists Z iff Z is a candidate (a sub-list of the nodes other
+   than exposure and outcome) that contains no descendant of the exposure and d-separates exposure and
+   outcome in the graph without the exposure's out-arrows *)
+Theorem adjustment_sets_exact g x y Z : wf g -> In x (nodes g) -> In y (nodes g) ->
+  (In Z (adjustment_sets g x y) <-> In Z (candidates g x y) /\ valid_spec g x y Z).
+Proof.
+  intros Hw Hx Hy. rewrite adjustment_sets_spec. split; intros [Hc H]; split; auto;
+    destruct (candidates_ok g x y Z Hc) as [_ [_ Hz]].
+  - apply alg_sound; auto.
+  - apply alg_complete; auto.
+Qed.
+
+Theorem adjustment_sets_exact_prog x y p Z :
+  let g := run_prog x y p in
+  In Z (adjustment_sets g x y) <-> In Z (candidates g x y) /\ valid_spec g x y Z.
+Proof.
+  intros g. destruct (run_prog_nodes x y p) as [Hx Hy]. apply adjustment_sets_exact; auto. apply run_prog_wf.
+Qed.
+
+Theorem minimal_sets_exact g x y s :
+  In s (minimal_adjustment_sets g x y) <->
+  In s (adjustment_sets g x y) /\ forall t, In t (adjustment_sets g x y) -> length s <= length t.
+Proof. unfold minimal_adjustment_sets. apply minimal_are_smallest. Qed.
+
+(* the candidate enumeration is complete: every sub-sequence of the eligible nodes is a candidate *)
+Inductive subseq : list nat -> list nat -> Prop :=
+| sub_nil l : subseq [] l
+| sub_take a s l : subseq s l -> subseq (a :: s) (a :: l)
+| sub_skip a s l : subseq s l -> subseq s (a :: l).
+
+Lemma subseq_length s l : subseq s l -> length s <= length l.
+Proof. induction 1; simpl; lia. Qed.
+
+Lemma combs_complete s l : subseq s l -> In s (combs l (length s)).
+Proof.
+  induction 1 as [l | a s l H IH | a s l H IH].
+  - destruct l; simpl; auto.
+  - simpl. apply in_or_app. left. apply in_map. exact IH.
+  - destruct s as [|b s]; [simpl; auto|]. simpl. apply in_or_app. right. exact IH.
+Qed.
+
+Theorem candidates_complete g x y s :
+  subseq s (filter (fun v => negb (v =? x) && negb (v =? y)) (nodes g)) -> In s (candidates g x y).
+Proof.
+  intros H. unfold candidates, all_subsets. apply in_flat_map. exists (length s). split.
+  - apply in_seq. apply subseq_length in H. lia.
+  - apply combs_complete; auto.
+Qed.
